@@ -115,6 +115,9 @@ def run(ctx):
         for ln in _unknown_bad(ctx, t, bad):
             r = json.loads(tl[ln - 1]) if ln - 1 < len(tl) else {"ev": "EOF"}
             unk[(r["ev"], r.get("tgt"), r.get("rkind"), r.get("method"), r.get("status"))] += 1
+    if any(k[0] == "Case" for k in unk):
+        raise lib.Infra("the trace specification refuses %d generated case(s) as malformed (FileServeTrace!WellFormedCase): "
+                        "defect of the generator, not of the code" % sum(v for k, v in unk.items() if k[0] == "Case"))
     if unk:
         lib.log("rejected answers not matching a known finding, by (event, target, range kind, method, status): %s" % dict(unk))
     lib.handle_rejections(ctx, res, lambda cl: rerun(ctx, cl))
